@@ -29,6 +29,8 @@ struct Script {
     /// use a separate flag action (register) on the same AtomicBool as the condition ("double Ctrl-C recipe")
     arm_by_signal: bool,
     initial: bool,
+    /// the process has a second thread
+    threads: bool,
     steps: Vec<Step>,
 }
 
@@ -73,6 +75,19 @@ fn run_child(sc: &Script, fd: i32) -> i32 {
         libc::atexit(atexit_marker);
         let r = libc::rlimit { rlim_cur: 0, rlim_max: 0 };
         libc::setrlimit(libc::RLIMIT_CORE, &r);
+    }
+    if sc.threads {
+        // a second thread that outlives the main one only if the shutdown fails to end the process
+        let main_tid = crate::sig::gettid();
+        std::thread::spawn(move || loop {
+            std::thread::sleep(std::time::Duration::from_millis(2));
+            let st = std::fs::read_to_string(format!("/proc/self/task/{}/stat", main_tid)).unwrap_or_default();
+            let zombie = st.rsplit(')').next().map(|x| x.trim_start().starts_with('Z') || x.trim_start().starts_with('X')).unwrap_or(true);
+            if st.is_empty() || zombie {
+                fork::wr(fd, "THREAD-ONLY-EXIT\n");
+                unsafe { libc::_exit(98) };
+            }
+        });
     }
     let cond = Arc::new(AtomicBool::new(sc.initial));
     let usize_flag = Arc::new(AtomicUsize::new(0));
@@ -144,7 +159,7 @@ pub fn main(args: &[String]) -> i32 {
             for bits in 0..(1u32 << len) {
                 let steps: Vec<Step> = (0..len).map(|i| if bits >> i & 1 == 1 { Step::Deliver } else { Step::Set(false) }).collect();
                 let sig = shutdown_sigs[((bits + len) as usize) % 3];
-                scripts.push(Script { sig, status: ((bits * 37 + len) % 256) as c_int, kind: 0, shutdown_first: order, arm_by_signal: true, initial: false, steps });
+                scripts.push(Script { sig, status: ((bits * 37 + len) % 256) as c_int, kind: 0, shutdown_first: order, arm_by_signal: true, initial: false, threads: bits % 2 == 1, steps });
             }
         }
     }
@@ -166,6 +181,7 @@ pub fn main(args: &[String]) -> i32 {
             shutdown_first: rng.chance(1, 2),
             arm_by_signal: kind == 0 && rng.chance(1, 2),
             initial: rng.chance(1, 4),
+            threads: rng.chance(1, 2),
             steps,
         });
     }
@@ -184,6 +200,10 @@ pub fn main(args: &[String]) -> i32 {
         let ignore_kind = sc.kind == 1 && ignore_sigs.contains(&sc.sig);
         for l in res.out.lines().filter(|l| l.starts_with("BAD")) {
             bad.push(("flag-value-after-delivery".into(), format!("{} || {}", l, label)));
+        }
+        if res.out.contains("THREAD-ONLY-EXIT") {
+            bad.push(("shutdown-ended-only-the-thread".into(), format!("the delivering thread ended but the (multi-threaded) process lived on || {}", label)));
+            continue;
         }
         match (&res.end, want_end) {
             (End::Timeout, _) => {
@@ -221,7 +241,7 @@ pub fn main(args: &[String]) -> i32 {
                 }
             }
         }
-        keys.insert(format!("{}:{}:{}:{}:{:?}", sc.kind, sc.sig, sc.shutdown_first, sc.arm_by_signal, want_end.map(|k| sc.steps[..=k].iter().filter(|s| matches!(s, Step::Deliver)).count())));
+        keys.insert(format!("{}:{}:{}:{}:{}:{:?}", sc.kind, sc.sig, sc.shutdown_first, sc.arm_by_signal, sc.threads, want_end.map(|k| sc.steps[..=k].iter().filter(|s| matches!(s, Step::Deliver)).count())));
         if samples.len() < 6 && idx % 97 == 3 {
             samples.push(J::s(&format!("{} -> {:?} after step {:?} (model: ends at {:?})", label, res.end, last_step, want_end)));
         }
